@@ -23,7 +23,7 @@ Step ==
   /\ LET e == Log[l] IN
      IF e.ev = "Reset" THEN cfg' = e.cfg /\ w' = (IF e.cfg.general THEN Empty2 ELSE Empty) /\ ok' = TRUE
      ELSE IF ~ok THEN UNCHANGED <<ok, cfg, w>>
-     ELSE LET r == IF cfg.general THEN Fold2(cfg, w, e.in) ELSE Fold(cfg, w, e.in) IN
+     ELSE LET r == IF "traced" \in DOMAIN cfg THEN FoldTraced(cfg, w, e.in) ELSE IF cfg.general THEN Fold2(cfg, w, e.in) ELSE Fold(cfg, w, e.in) IN
           IF r.out = e.out /\ e.est = e.dest
           THEN w' = r.st /\ UNCHANGED <<ok, cfg>>
           ELSE /\ ok' = FALSE /\ UNCHANGED <<cfg, w>>
